@@ -37,7 +37,9 @@ def _masks(seed):
 
 def gen_scenario(seed, tier="quick", opts=None):
     opts = opts or {}
-    never = tuple(x for x in opts.get("never", "").split(",") if x)
+    # "bad" (undefined resources, undeclared inputs, failing steps) makes the final project
+    # unbuildable on purpose; whether such a project "is built" is not what C01 states
+    never = tuple(x for x in opts.get("never", "").split(",") if x) + ("bad",)
     always = tuple(x for x in opts.get("always", "").split(",") if x)
     max_size = 8 if tier == "quick" else 12
     sc = history.gen_history(seed, always=always, never=never, masks=_masks(seed), max_size=max_size)
@@ -86,6 +88,10 @@ def run_scenario(sc) -> Result:
     if diffs:
         kinds = sorted({d.split(" ", 1)[0] for d in diffs})
         key = "+".join(kinds)
+        if all(_only_inp_digest(d) for d in diffs):
+            key = "inp-digest-only"
+        elif all(d.startswith("tree ") and "(volatile): A=None" in d for d in diffs):
+            key = "volatile-output-missing-after-skip"
         if diffs[0].startswith("returncode"):
             key = "returncode:" + diffs[0].split(":", 1)[1].strip()
             if run.last.rc_value == 0 and _succeeded_with_detached_input(run.uni.projection()):
@@ -152,6 +158,13 @@ def _defer_cap_on_detached_input(run):
             if any(ref.startswith("(file:") and dyn for ref, dyn in d["sources"]):
                 return True
     return False
+
+
+def _only_inp_digest(diff_line):
+    """The structure of known finding F12: a SUCCEEDED step with the same recorded output
+    digest but another input digest than in the scratch universe."""
+    m = re.match(r"graph step:.*\.digests: A=\('([^']*)', '([^']*)'\) B=\('([^']*)', '([^']*)'\)$", diff_line)
+    return bool(m) and m.group(2) == m.group(4) and m.group(1) != m.group(3)
 
 
 def _stale_child(world, build_result):
